@@ -18,6 +18,7 @@ SPECIFICATION Spec
 INVARIANT LayoutValid
 INVARIANT Refines
 INVARIANT RoundTrip
+INVARIANT KeepExact
 INVARIANT TailOK
 INVARIANT EditResult
 INVARIANT StillValid
